@@ -15,10 +15,15 @@ import time
 from . import extract
 from .extract import ExtractError, VERIF
 
-GEN = os.path.join(VERIF, 'gen')
 # Evidence and replays of runs against a scratch copy (VERIF_REPO set: mutant self-test, seeded/benign experiments) must not
-# overwrite the records of the real tree.
+# overwrite the records of the real tree, and their generated files must not collide with those of a run on the real tree
+# (or on another scratch copy) going on at the same time: one gen directory per scratch root.
 _SCRATCH = bool(os.environ.get('VERIF_REPO')) and os.environ.get('VERIF_REPO') != '/repo'
+if _SCRATCH:
+    import hashlib as _hl
+    GEN = os.path.join(VERIF, 'gen', 'scratch_' + _hl.sha256(os.environ['VERIF_REPO'].encode()).hexdigest()[:10])
+else:
+    GEN = os.path.join(VERIF, 'gen')
 EVID = os.path.join(VERIF, 'gen', 'scratch_evidence') if _SCRATCH else os.path.join(VERIF, 'evidence')
 REPLAYS = os.path.join(VERIF, 'gen', 'scratch_replays') if _SCRATCH else os.path.join(VERIF, 'replays')
 VERUS = shutil.which('verus') or '/opt/veriftools/verus/verus'
@@ -314,6 +319,28 @@ def verify_unit(unit, vacuity=True, extra=None, tag='', degrade_ok=True):
     subset, a call the shims do not know) is degraded to an assumed stub and the rest of the unit is still verified
     (up to 3 rounds); the degraded functions are reported in r.degraded and are never counted as proved."""
     degrade = {} if degrade_ok else None
+    if degrade is not None:
+        # R7 pins: a lifted iterator one-liner keeps an ASSUMED contract that was written for one exact text; if the
+        # text in the tree differs (even by the order of two adapters, which line-wise rewrites cannot see), the
+        # function that contains it is not posable
+        try:
+            pins = r7_pins(unit)
+            changed = changed_assumed_functions(unit)
+            if pins or changed:
+                _t, m0 = extract.generate(unit, degrade={})
+                glines = _t.split('\n')
+                for k, fb in enumerate(m0['fns']):
+                    if fb.get('degraded'):
+                        continue
+                    for (pf, pfn, why) in pins:
+                        if fb['file'] == pf and fb['name'] == pfn:
+                            degrade[k] = why
+                    body = '\n'.join(glines[fb['gen_start'] - 1:fb['gen_end']])
+                    for (call_re, why) in changed:
+                        if k not in degrade and re.search(call_re, body):
+                            degrade[k] = why
+        except ExtractError:
+            pass
     r = None
     for _round in range(4):
         r = _verify_unit_once(unit, vacuity, extra, tag, degrade)
@@ -337,6 +364,64 @@ def verify_unit(unit, vacuity=True, extra=None, tag='', degrade_ok=True):
     return r
 
 
+_PINMOD = []
+
+
+def changed_assumed_functions(unit):
+    """[(call regex, reason)] for the functions in units/pins.json that this unit relies on through an ASSUMED shim and
+    whose text in the current tree is no longer the text the shim was written against (tools/mkpins.py)."""
+    p = os.path.join(VERIF, 'units', 'pins.json')
+    if not os.path.exists(p):
+        return []
+    if not _PINMOD:
+        import importlib.util
+        spec = importlib.util.spec_from_file_location('verif_mkpins', os.path.join(VERIF, 'tools', 'mkpins.py'))
+        mod = importlib.util.module_from_spec(spec)
+        spec.loader.exec_module(mod)
+        _PINMOD.append(mod)
+    mod = _PINMOD[0]
+    out = []
+    for e in json.load(open(p))['pins']:
+        if unit not in e['units']:
+            continue
+        try:
+            h, _ = mod.fn_text_hash(e['file'], e['scope'], e['fn'])
+        except Exception as ex:
+            h = 'LOST: %s' % ex
+        if h != e['sha']:
+            out.append((e['call_re'], 'it calls %s::%s, whose contract is only ASSUMED (%s) and whose text changed since the '
+                        'assumption was written (units/pins.json)' % (e['file'], e['fn'], e['why'])))
+    return out
+
+
+_R7MOD = []
+
+
+def r7_pins(unit):
+    """[(file, fn, reason)] for the lifted (R7) snippets of `unit` whose text in the current tree is not the pinned one."""
+    if not _R7MOD:
+        import importlib.util
+        spec = importlib.util.spec_from_file_location('verif_r7_run', os.path.join(VERIF, 'r7', 'run.py'))
+        mod = importlib.util.module_from_spec(spec)
+        spec.loader.exec_module(mod)
+        _R7MOD.append(mod)
+    mod = _R7MOD[0]
+    out = []
+    for h in mod.HELPERS:
+        if h['unit'] != unit:
+            continue
+        try:
+            c = mod.cut(h)
+            if c.get('changed'):
+                out.append((h['file'], h.get('degrade_fn', h['fn']), 'the lifted snippet %s is no longer the text its assumed contract was written for: now `%s`'
+                            % (h['helper'], re.sub(r'\s+', ' ', c['snippet'])[:200])))
+        except mod.Lost as e:
+            if h.get('alternative'):
+                continue
+            out.append((h['file'], h.get('degrade_fn', h['fn']), 'the lifted snippet %s was not found: %s' % (h['helper'], e)))
+    return out
+
+
 def _verify_unit_once(unit, vacuity, extra, tag, degrade):
     r = UnitResult(unit)
     t0 = time.time()
@@ -357,8 +442,11 @@ def _verify_unit_once(unit, vacuity, extra, tag, degrade):
     r.degraded = [{'name': f['name'], 'file': f['file'], 'props': f['props'], 'reason': f['degraded'],
                    'gen_start': f['gen_start'], 'gen_end': f['gen_end']} for f in meta['fns'] if f.get('degraded')]
     path = os.path.join(GEN, stem + '.rs')
-    with open(path, 'w') as f:
+    # several checks of one run generate the same unit concurrently (same text): write atomically
+    tmpp = '%s.%d.tmp' % (path, os.getpid())
+    with open(tmpp, 'w') as f:
         f.write(text)
+    os.replace(tmpp, path)
     with open(os.path.join(GEN, stem + '.map.json'), 'w') as f:
         json.dump(meta, f)
     r.gen_path = path
@@ -509,9 +597,10 @@ def tagged_functions(meta, pid, gen_text):
 
 
 def check_property(pid, tier='quick', seed=0, witness_hook=None):
-    if _SCRATCH:
+    if _SCRATCH and not os.environ.get('VERIF_WITNESS_DIR'):
         # a scratch copy (VERIF_REPO: mutant / benign experiments) is judged by the verifier alone: the native witnesses
-        # are built against /repo itself and say nothing about the scratch tree
+        # are built against /repo itself and say nothing about the scratch tree (unless an isolated witness crate
+        # built against that scratch tree is supplied: VERIF_WITNESS_DIR)
         witness_hook = None
     t0 = time.time()
     units = units_for_property(pid)
